@@ -240,6 +240,11 @@ func readSnapshotBlockBytes(reader SnapshotReader) ([]byte, error) {
 	}
 	buf := make([]byte, n1)
 	n2, err := io.ReadFull(reader, buf)
+	if err == io.EOF {
+		// The length prefix was read, so the stream ends inside a block: that is a
+		// truncated snapshot, not a clean end of input.
+		err = io.ErrUnexpectedEOF
+	}
 	if err != nil {
 		return nil, err
 	}
